@@ -8,7 +8,8 @@ StepDraw(e)  == e.ev = "draw" /\
   LET f == DrawFails(e) IN
   Report(e.case, f, IF f = {} THEN <<>> ELSE [kind |-> e.kind, bbox |-> e.bbox, n |-> e.n, nout |-> Len(Outside(e)),
                                               firstout |-> IF Outside(e) = <<>> THEN <<>> ELSE Outside(e)[1]])
-StepPanic(e) == e.ev = "panic"
+\* a library call of this case panicked: the property promises a result for every input of its domain
+StepPanic(e) == e.ev = "panic" /\ Report(e.case, {"library_call_panicked"}, [msg |-> e.msg, loc |-> e.loc])
 Next == /\ l <= NRec
         /\ LET e == Rec[l] IN StepCase(e) \/ StepDraw(e) \/ StepPanic(e)
         /\ l' = l + 1
